@@ -96,7 +96,56 @@ var c15wSpecs = []c15wSpec{{
 	Res: "mod-req", List: "custom", Rule: "|six.example^$dnsrewrite=other.example",
 	IP: "", TimeMs: 1628590399555, ASN: 0, ElapsedMs: 66, QType: dns.TypeA, RCode: dns.RcodeSuccess,
 	Proto: agd.ProtoDoT, DNSSEC: false,
+}, {
+	// 6: a line just under 1024 bytes (long but valid rule text).
+	ReqID: 0x77, Profile: "prof7777", Device: "dev7777", Name: "seven.under-one-kib.example.", CC: "SE", RC: "SE",
+	Res: "req-blocked", List: "list_seven", Rule: c15wLongRule("||seven.under-one-kib.example^$", 760),
+	IP: "192.0.2.7", TimeMs: 1628590400666, ASN: 7, ElapsedMs: 7, QType: dns.TypeA, RCode: dns.RcodeSuccess,
+	Proto: agd.ProtoDNS, DNSSEC: false,
+}, {
+	// 7: a line of about 1100 bytes.
+	ReqID: 0x88, Profile: "prof8888", Device: "dev8888", Name: "eight.over-one-kib.example.", CC: "NO", RC: "",
+	Res: "resp-blocked", List: "list_eight", Rule: c15wLongRule("||eight.over-one-kib.example^$", 900),
+	IP: "", TimeMs: 1628590401777, ASN: 88, ElapsedMs: 8, QType: dns.TypeAAAA, RCode: dns.RcodeSuccess,
+	Proto: agd.ProtoDoH, DNSSEC: true,
+}, {
+	// 8: a line of about 4 KiB: a 253-octet name and a rule text of the
+	// maximum length (1024 runes) whose runes take 3 or, escaped, 6 bytes.
+	ReqID: 0x99, Profile: "prof9999", Device: "dev9999", Name: c15wLongName(), CC: "FI", RC: "FI",
+	Res: "req-allowed", List: "custom", Rule: c15wWideRule(1024),
+	IP: "2001:db8::99", TimeMs: 1628590402888, ASN: 999, ElapsedMs: 9, QType: dns.TypeHTTPS, RCode: dns.RcodeNameError,
+	Proto: agd.ProtoDoQ, DNSSEC: false,
 }}
+
+// c15wLongRule pads prefix with a valid-looking modifier list to n bytes.
+func c15wLongRule(prefix string, n int) string {
+	var sb strings.Builder
+	sb.WriteString(prefix)
+	for i := 0; sb.Len() < n; i++ {
+		fmt.Fprintf(&sb, "client=~host%d|", i)
+	}
+
+	return sb.String()[:n]
+}
+
+// c15wWideRule is a rule text of n runes made of 3-byte runes and of
+// characters that encoding/json escapes as \u00XX.
+func c15wWideRule(n int) string {
+	rs := []rune(strings.Repeat("日本&", n/3+1))
+
+	return string(rs[:n])
+}
+
+// c15wLongName is a 253-octet domain name (without the trailing dot).
+func c15wLongName() string {
+	l := strings.Repeat("a", 61)
+	name := l + "." + strings.Repeat("b", 61) + "." + strings.Repeat("c", 61) + "." + strings.Repeat("d", 61) + ".tests"
+	if len(name) != 253 {
+		panic(fmt.Sprintf("long name has %d octets", len(name)))
+	}
+
+	return name + "."
+}
 
 func (sp c15wSpec) reqID() (id agd.RequestID) {
 	for i := range id {
@@ -212,6 +261,10 @@ type c15wScenario struct {
 	// PreQuick and PreThorough are the preemption bounds of the two tiers; a
 	// negative bound means that the scenario does not run in that tier.
 	PreQuick, PreThorough int
+	// Prelude lists entries that are written sequentially and successfully on
+	// the same FileSystem before the concurrent writers start; their lines
+	// belong into the file as well.
+	Prelude []int
 	// FailedOpens is the number of sequential Writes that precede the
 	// concurrent writers on the same FileSystem while the directory of the log
 	// path does not exist yet: os.OpenFile fails, Write must return an error
@@ -236,6 +289,14 @@ var c15wScenarios = []c15wScenario{
 	{Name: "fo1-2w-2+2", FailedOpens: 1, Writers: [][]int{{0, 2}, {1, 3}}, PreQuick: 2, PreThorough: 3},
 	{Name: "fo1-3w-1+1+1", FailedOpens: 1, Writers: [][]int{{0}, {1}, {2}}, PreQuick: -1, PreThorough: 3},
 	{Name: "fo2-3w-2+1+1", FailedOpens: 2, Writers: [][]int{{0, 3}, {1}, {2}}, PreQuick: -1, PreThorough: 2},
+}
+
+// c15wSizeScenarios: a large record goes through the pooled buffer first.
+func init() {
+	c15wScenarios = append(c15wScenarios,
+		c15wScenario{Name: "big4k-2w-1+1", Prelude: []int{8}, Writers: [][]int{{0}, {1}}, PreQuick: 2, PreThorough: 3},
+		c15wScenario{Name: "big1100+4k-2w-2+1", Prelude: []int{7, 8}, Writers: [][]int{{0, 2}, {1}}, PreQuick: -1, PreThorough: 3},
+	)
 }
 
 // c15wFailedOpenSpecs are the entries of the Writes whose open fails.
@@ -277,6 +338,11 @@ func c15wSetup(sc c15wScenario, s *xsched.Sched) (env *c15wEnv) {
 	}
 	if err := os.MkdirAll(sub, 0o755); err != nil {
 		vrt.Fatalf("mkdir: %v", err)
+	}
+	for _, si := range sc.Prelude {
+		if err := l.Write(ctx, c15wSpecs[si].entry()); err != nil {
+			env.errs = append(env.errs, fmt.Sprintf("prelude spec %d: %v", si, err))
+		}
 	}
 	for i, idxs := range sc.Writers {
 		s.Go(fmt.Sprintf("W%d", i+1), func() {
@@ -321,7 +387,7 @@ func c15wCheck(env *c15wEnv, x *xsched.Exec) (fs []vrt.Finding, order string) {
 	// Expected multiset.
 	remaining := map[string][]int{}
 	n := 0
-	for _, idxs := range env.sc.Writers {
+	for _, idxs := range append([][]int{env.sc.Prelude}, env.sc.Writers...) {
 		for _, si := range idxs {
 			w := c15wSpecs[si].want()
 			remaining[w] = append(remaining[w], si)
